@@ -110,6 +110,18 @@ let run_line (line : string) : string =
       (* raw filter bytes, raw event bytes *)
       let fb = p_b t in let eb = p_b t in
       Printf.sprintf "matchraw model=%s" (s_res s_bool (event_matches fb eb))
+  | "ctor_tags" ->
+      let ts = p_tags t in let outlen = p_int t in let fill = p_n t in
+      let out = List.init outlen (fun _ -> fill) in
+      Printf.sprintf "ctor_tags r=%s fits=%s" (s_res hex_of_bytes (tags_from_parts ts out)) (s_bool (fits_tagsb ts))
+  | "ctor_event" ->
+      let e = p_event t in let outlen = p_int t in let fill = p_n t in
+      let out = List.init outlen (fun _ -> fill) in
+      Printf.sprintf "ctor_event r=%s fits=%s" (s_res hex_of_bytes (event_from_parts e out)) (s_bool (wf_aeventb e && fits_eventb e))
+  | "ctor_filter" ->
+      let f = p_filter t in let outlen = p_int t in let fill = p_n t in
+      let out = List.init outlen (fun _ -> fill) in
+      Printf.sprintf "ctor_filter r=%s fits=%s" (s_res hex_of_bytes (filter_from_parts f out)) (s_bool (wf_afilterb f && fits_filterb f))
   | "hll_add" ->
       let p_el t = let i = p_b t in let o = p_n t in (i, o) in
       let a = p_list p_el t in let b = p_list p_el t in
